@@ -32,14 +32,23 @@ KP(q) == [i \in DOMAIN q |-> [k |-> q[i].k, p |-> q[i].p]]
 C08_Order(o, t) == Dedup(o.sent, <<>>) = KP(t.sent)
 (* a repeat is answered "seen" (shuttermint-side de-duplication), it has no second effect *)
 C08_RepeatSeen(o) == \A i, j \in DOMAIN o.sent :
-    (i < j /\ o.sent[i].k = o.sent[j].k /\ o.sent[i].p = o.sent[j].p) => o.sent[j].code = CodeSeen
+    (i < j /\ o.sent[i].k = o.sent[j].k /\ o.sent[i].p = o.sent[j].p /\ o.sent[i].k # "bseen") => o.sent[j].code = CodeSeen
+    (* (a repeated BlockSeen report is accepted again: shuttermint keeps the maximum, idempotent) *)
 
 (* a restarted keyper can load what is stored: every puredkg row decodes *)
 C08_Loadable(o) == o.db.loadable
 
 (* every queued shuttermint message is delivered, in order: what was ever committed to the outbox
    (o.queued, id order) is what shuttermint received, repeats aside (evaluated at the end) *)
-C08_Delivered(o) == Dedup(o.sent, <<>>) = o.queued
+(* (a BatchConfig vote is exempt: once the config is registered it is moot and handleBatchConfig
+   withdraws it; what must NOT happen to it is C08_NoStale) *)
+NoVotes(q) == SelectSeq(q, LAMBDA m : m.k # "vote")
+C08_Delivered(o) == NoVotes(Dedup(o.sent, <<>>)) = NoVotes(o.queued)
+
+(* after the on-chain fact (the keyper config is registered: its row is in tendermint_batch_config)
+   has been observed, no stale message about it remains in the outbox, where shuttermint's refusal
+   would block everything queued behind it *)
+C08_NoStale(o) == o.db.cfgseen => \A i \in DOMAIN o.db.outbox : o.db.outbox[i].k # "vote"
 
 (* it resumes exactly where a keyper that never crashed would be *)
 C08_Twin(o, t) == o.db = t.db
@@ -54,7 +63,8 @@ StepFailed(o, t) ==
     (IF C08_Order(o, t) THEN {} ELSE {"C08_Order"}) \cup
     (IF C08_RepeatSeen(o) THEN {} ELSE {"C08_RepeatSeen"}) \cup
     (IF C08_Twin(o, t) THEN {} ELSE {"C08_Twin"}) \cup
-    (IF C08_Loadable(o) THEN {} ELSE {"C08_Loadable"})
+    (IF C08_Loadable(o) THEN {} ELSE {"C08_Loadable"}) \cup
+    (IF C08_NoStale(o) THEN {} ELSE {"C08_NoStale"})
 
 (* after a crash, before the restart: the database alone must already be sound *)
 MidFailed(o) ==
